@@ -16,3 +16,11 @@ func VHash(i int) Hash {
 	h[31] = 0x5A
 	return h
 }
+
+// VQuorumRef is the harnesses' own statement of the quorum size, q = ceil((n+f+1)/2) with
+// f = floor((n-1)/3), in integer arithmetic - deliberately not the repository's QuorumSize, so
+// that ground truths do not move with the code under test.
+func VQuorumRef(n int) int {
+	f := (n - 1) / 3
+	return (n + f + 2) / 2
+}
